@@ -92,3 +92,39 @@ Definition max_wf_payload_len (k : kind) (pver : N) : option N :=
   | KFilterLoad => if BIP0037Version <=? pver then Some (3 + MaxFilterLoadFilterSize + 9) else None
   | _ => None
   end.
+
+(* ---------- the two in-memory forms of an IPv4 address ----------
+   Go holds an IPv4 address either as 4 bytes or as the 16-byte IPv4-mapped form; on the wire there is
+   only the 16-byte form.  norm_msg rewrites every 4-byte address of a message into the mapped form:
+   both forms must encode to the same bytes and decode(encode m) must be norm_msg m. *)
+Definition norm_ip (ip : bytes) : bytes := if Nat.eqb (length ip) 4 then v4_prefix ++ ip else ip.
+Definition norm_na (a : netaddr) : netaddr := mk_na (na_ts a) (na_svc a) (norm_ip (na_ip a)) (na_port a).
+Definition norm_msg (m : msg) : msg :=
+  match m with
+  | MVersion v =>
+    MVersion (mk_ver (v_pver v) (v_svc v) (v_ts v) (norm_na (v_you v)) (norm_na (v_me v)) (v_nonce v)
+                     (v_ua v) (v_lastblock v) (v_disable_relay v))
+  | MAddr l => MAddr (map norm_na l)
+  | _ => m
+  end.
+
+(* ---------- a stream of frames ----------
+   A frame is "fully framed" when its 24-byte header is there, the announced length does not exceed the
+   global maximum and that many payload bytes follow.  Whatever the verdict on such a frame (accepted,
+   wrong magic, unknown command, above the type's limit, bad checksum, payload refused by the decoder),
+   the reader must afterwards stand exactly behind it: split_frames cuts a stream into its leading fully
+   framed frames, and the i-th ReadMessage on the stream must give the verdict of the i-th frame alone. *)
+Definition fully_framed_len (ebs : N) (bs : bytes) : option nat :=
+  if (24 <=? len bs) && (hdr_len bs <=? max_message_payload ebs) && (hdr_len bs <=? len bs - 24)
+  then Some (24 + N.to_nat (hdr_len bs))%nat else None.
+
+Fixpoint split_frames (fuel : nat) (ebs : N) (bs : bytes) : list bytes :=
+  match fuel with
+  | O => []
+  | S f =>
+    match fully_framed_len ebs bs with
+    | Some n => firstn n bs :: split_frames f ebs (skipn n bs)
+    | None => []
+    end
+  end.
+
